@@ -48,6 +48,12 @@ def scenarios(rng, tier):
     nothing = make_file([(3, b"hello")], 1)
     garbage = b"not a skyb file"
     files = [good, empty_blocks, short, cut, nothing, garbage]
+    # a file that ends inside the body of the very block being loaded (descriptor route: the block-sized buffer has been
+    # allocated when the short read is noticed), for each kind: nothing of the body, one byte of it, all but one byte
+    for typ, blk in ((1, tb), (2, lp), (5, yb), (4, rp)):
+        whole = make_file([(3, b"xy"), (typ, blk)], 1)
+        for keep in (0, 1, len(blk) - 1):
+            files.append(whole[:len(whole) - len(blk) + keep])
     for f in files:
         h = hx(f)
         for k in "TLYR":
